@@ -170,3 +170,6 @@ PROPS["C20"] = dict(level="exploration", units=_c20_units(),
     assumptions=["every configuration runs the same generated byte strings (same seeds); a digest is the harness's record of what a user can observe: completion channel, values / error identity, completion context, relative order of starts, completions, stop observations and cleanups",
                  "configurations: p17 = C++17, assertions on, no async stacks (reference); r17 = C++17 -DNDEBUG (assertions and async stacks compiled out); s17 = C++17 with async stack tracing; v17 = C++17 with UNIFEX_ENABLE_CONTINUATION_VISITATIONS=1; p20 = C++20 (clang); s20 = C++20 (g++) with async stack tracing (coroutine tasks)",
                  "copy/move counts of values and allocation counts are not part of the digest (the language may elide differently)"])
+
+# C11 for coroutine tasks: the programs of C10 with the scheduler-affinity oracles (resumption and completion context)
+PROPS["C11"]["units"].append(Unit("c10_tasks", "harness/c10_tasks.cpp", cfg="p20", max_size=100, quick=(15, 300000), thorough=(240, 20000000)))
